@@ -661,10 +661,14 @@ class Session:
     def apply_edit(self, rep, st, perts, tr, req, argdiffs):
         api = st.get("api", "req.edit")
         gf = tr.get_gen_fn()
-        if self.node["k"] == "closure" and api in ("gf.edit", "gf.update"):
+        direct = (st["op"] == "update" and api == "gf.update" and not st.get("annotate")) or (
+            api in ("gf.edit", "gf.update") and not isinstance(req, (EmptyRequest, DiffAnnotate))
+        )
+        if self.node["k"] == "closure" and direct:
             # the closure object itself: takes the remaining arguments only (C32)
             gf = self.gf
             argdiffs = self._closure_argdiffs
+            self.probe("closure:direct-edit")
         if st["op"] == "update" and api in ("tr.update", "gf.update") and not st.get("annotate"):
             chm = req.constraint
 
